@@ -145,7 +145,9 @@ def check(ctx, env):
         for e in pa.calls:
             if C.short(e[1]).endswith("copy_from_slice"):
                 a = C.expr_of(pa, e[2])
-                d, s = a[0][0], a[1][0]     # (index node, '.*')
+                # each operand is (index node, '.*') or a bare slice value
+                d = a[0][0] if isinstance(a[0], tuple) and len(a[0]) == 2 and a[0][1] == ".*" else a[0]
+                s = a[1][0] if isinstance(a[1], tuple) and len(a[1]) == 2 and a[1][1] == ".*" else a[1]
                 copies.append((d, s))
         ret = C.expr_of(pa, pa.ret)
         kind = None
@@ -160,7 +162,11 @@ def check(ctx, env):
         used = 0               # bytes of data consumed so far
         total = 0
         for i, (d, s) in enumerate(copies):
-            dr, sr = rng(d[2]), rng(s[2])
+            # an operand is an index node (index fn, base, range) or a whole slice (range 0..len)
+            if s == "top:data":
+                s = ("whole", "top:data", ("Range", 0, ("slice::len", "top:data")))
+            dr = rng(d[2]) if isinstance(d, tuple) and len(d) == 3 else None
+            sr = rng(s[2]) if isinstance(s, tuple) and len(s) == 3 else None
             if dr is None or sr is None or "buffer" not in repr(d[1]) and "havoc:index_mut" not in repr(d[1]) or "top:data" not in repr(s[1]):
                 probs.append("copy %d has unexpected operands %s <- %s" % (i, show(d)[:80], show(s)[:80]))
                 continue
